@@ -384,7 +384,23 @@ def eval_schedules(case):
             x = sc.run(bodies, list(case[3]))
             viols = [(fp, msg + f' schedule={list(x.choices)}') for fp, msg in h.check(x, ctx)]
             return {'v': viols, 'nt': None, 'out': 'replay'}
+        # own the nondeterminism, then prove it: the same schedule must give identical observations twice
+        obs = []
+        for _ in range(2):
+            bodies, ctx = h.make_bodies(sc)
+            x = sc.run(bodies, [0, 1, 0, 1][:0])
+            h.check(x, ctx)
+            obs.append((list(x.choices), x.npoints, ctx.get('outcome_key')))
+        if obs[0] != obs[1]:
+            raise RuntimeError(f'scheduler nondeterminism: the default schedule gave {obs[0]} then {obs[1]}')
         stats = S.explore(sc, lambda: h.make_bodies(sc), h.check, bound)
+        # ... and one explored non-default schedule replayed must reproduce its recorded branch structure
+        if stats.get('last_schedule') is not None:
+            bodies, ctx = h.make_bodies(sc)
+            x = sc.run(bodies, stats['last_schedule'])
+            h.check(x, ctx)
+            if list(x.choices)[:len(stats['last_schedule'])] != stats['last_schedule']:
+                raise RuntimeError('scheduler nondeterminism: replay of an explored schedule diverged')
     finally:
         sc.uninstall()
         world.reset_all()
